@@ -17,12 +17,19 @@ LINE_OPENERS = ["<nowiki>*x</nowiki> ", "<nowiki>y</nowiki>", "<nowiki/>", "''i'
 
 # (a comment at the start of a line is not in this list: by C15 it is deleted together with the line break before it,
 #  which joins the two lines)
+TITLE_DECOR = [("''", "''"), ("'''", "'''"), ("[[l|", "]]"), ("", " {{a|x}}"), ("<span class=\"c\">", "</span>"), ("", " <nowiki>=</nowiki>"),
+               ("x ", " y"), ("", " [http://x.y e]"), ("{{a}} ", ""), ("", " &amp;"), ("", " (1=2)"), ("<b>", "</b>")]
+
+
 def render(doc, rng):
     out = []
     for b in doc:
         if b[0] == "H":
             eq = "=" * b[1]
-            out.append("%s H%d %s\n" % (eq, b[2], eq))
+            # the title may carry inline markup, may touch the '=' runs, and the line may end in blanks
+            pre, post = rng.choice(TITLE_DECOR) if rng.random() < 0.35 else ("", "")
+            sp = rng.choice([" ", " ", "", "  "])
+            out.append("%s%s%sH%d%s%s%s%s\n" % (eq, sp, pre, b[2], post, sp, eq, rng.choice(["", "", " ", "\t"])))
         elif b[0] == "T":
             # the paragraph may begin with any inline construct (every one of them has to close the open lists)
             opener = rng.choice(LINE_OPENERS) if rng.random() < 0.4 else ""
